@@ -321,4 +321,323 @@ theorem pop_spec (q : Q) :
       · rw [hl]; exact hx
       · simp only [hl, List.tail_cons]
 
+/-! ### trace-level refinement: the queue against a multiset of all queued items -/
+
+theorem getD_toList (parts : Array (List Item)) (p : Nat) : parts.getD p [] = parts.toList.getD p [] := by
+  rw [Array.getD_eq_getD_getElem?, List.getD_eq_getElem?_getD, Array.getElem?_toList]
+
+theorem flatten_set_add (l : List (List Item)) (i : Nat) (x : Item) (l' : List Item) (hi : i < l.length)
+    (h : l'.Perm (x :: l.getD i [])) : (l.set i l').flatten.Perm (x :: l.flatten) := by
+  induction l generalizing i with
+  | nil => simp at hi
+  | cons r rs ih =>
+    cases i with
+    | zero =>
+      simp only [List.getD_cons_zero] at h
+      simp only [List.set_cons_zero, List.flatten_cons]
+      exact (h.append_right _).trans (by simp)
+    | succ i =>
+      simp only [List.getD_cons_succ] at h
+      simp only [List.set_cons_succ, List.flatten_cons]
+      exact (List.Perm.append_left r (ih i (by simpa using hi) h)).trans List.perm_middle
+
+theorem flatten_set_remove (l : List (List Item)) (i : Nat) (x : Item) (l' : List Item)
+    (h : (l.getD i []).Perm (x :: l')) : l.flatten.Perm (x :: (l.set i l').flatten) := by
+  induction l generalizing i with
+  | nil => simp at h
+  | cons r rs ih =>
+    cases i with
+    | zero =>
+      simp only [List.getD_cons_zero] at h
+      simp only [List.set_cons_zero, List.flatten_cons]
+      exact (h.append_right _).trans (by simp)
+    | succ i =>
+      simp only [List.getD_cons_succ] at h
+      simp only [List.set_cons_succ, List.flatten_cons]
+      exact (List.Perm.append_left r (ih i h)).trans List.perm_middle
+
+theorem mem_flatten_iff (parts : Array (List Item)) (y : Item) :
+    y ∈ parts.toList.flatten ↔ ∃ p, y ∈ parts.getD p [] := by
+  simp only [List.mem_flatten]
+  constructor
+  · rintro ⟨r, hr, hy⟩
+    obtain ⟨i, hi, e⟩ := List.getElem_of_mem hr
+    refine ⟨i, ?_⟩
+    rw [getD_toList, List.getD_eq_getElem?_getD, List.getElem?_eq_getElem hi]
+    simpa [e] using hy
+  · rintro ⟨p, hy⟩
+    rw [getD_toList, List.getD_eq_getElem?_getD] at hy
+    by_cases hp : p < parts.toList.length
+    · rw [List.getElem?_eq_getElem hp] at hy
+      exact ⟨_, List.getElem_mem hp, by simpa using hy⟩
+    · rw [List.getElem?_eq_none (by omega)] at hy; cases hy
+
+/-- every item sits in the partition its index function names -/
+def PPart (q : Q) : Prop := ∀ p y, y ∈ q.parts.getD p [] → y.part = p
+
+theorem step_part (q : Q) (o : Op) (h : PPart q) : PPart (step q o) := by
+  cases o with
+  | push x =>
+    show PPart (if x.part < q.parts.size then push q x else q)
+    by_cases hx : x.part < q.parts.size
+    · rw [if_pos hx]
+      intro a y hy
+      change y ∈ (q.parts.setIfInBounds x.part (insertSorted x (q.parts.getD x.part []))).getD a [] at hy
+      rw [getD_set] at hy
+      by_cases hc : x.part = a ∧ x.part < q.parts.size
+      · rw [if_pos hc] at hy
+        rcases (insertSorted_mem x _ y).mp hy with rfl | h2
+        · exact hc.1
+        · rw [← hc.1]; exact h _ y h2
+      · rw [if_neg hc] at hy; exact h a y hy
+    · rw [if_neg hx]; exact h
+  | delete x =>
+    show PPart (if x.part < q.parts.size then delete q x else q)
+    by_cases hx : x.part < q.parts.size
+    · rw [if_pos hx]
+      intro a y hy
+      change y ∈ (q.parts.setIfInBounds x.part ((q.parts.getD x.part []).erase x)).getD a [] at hy
+      rw [getD_set] at hy
+      by_cases hc : x.part = a ∧ x.part < q.parts.size
+      · rw [if_pos hc] at hy; rw [← hc.1]; exact h _ y (List.mem_of_mem_erase hy)
+      · rw [if_neg hc] at hy; exact h a y hy
+    · rw [if_neg hx]; exact h
+  | pop =>
+    show PPart (pop q).2
+    unfold pop
+    cases hp : Heap.peek q.heap with
+    | none => exact h
+    | some p =>
+      simp only []
+      cases hl : q.parts.getD p [] with
+      | nil => exact h
+      | cons x rest =>
+        intro a y hy
+        change y ∈ (q.parts.setIfInBounds p rest).getD a [] at hy
+        rw [getD_set] at hy
+        by_cases hc : p = a ∧ p < q.parts.size
+        · rw [if_pos hc] at hy; rw [← hc.1]; exact h p y (by rw [hl]; exact List.mem_cons_of_mem _ hy)
+        · rw [if_neg hc] at hy; exact h a y hy
+
+/-- `Peek` is not above any queued item -/
+theorem peek_le_all (q : Q) (hinv : PInv q) (hsorted : PSorted q) (x : Item) (hx : peek q = some x) :
+    ∀ y ∈ q.parts.toList.flatten, x.prio ≤ y.prio := by
+  intro y hy
+  obtain ⟨p, hyp⟩ := (mem_flatten_iff q.parts y).mp hy
+  by_cases hp : p < q.parts.size
+  · cases hl : q.parts.getD p [] with
+    | nil => rw [hl] at hyp; cases hyp
+    | cons a as =>
+      have h1 := peek_min q hinv x hx p hp a (by unfold headOf; rw [hl]; rfl)
+      have h2 := hsorted p
+      rw [hl] at h2 hyp
+      simp only [List.mem_cons] at hyp
+      rcases hyp with rfl | hyp
+      · exact h1
+      · have := (List.pairwise_cons.mp h2).1 y hyp; omega
+  · rw [Array.getD_eq_getD_getElem?, Array.getElem?_eq_none (by omega)] at hyp; cases hyp
+
+def out (q : Q) : Op → Option Item
+  | .pop => (pop q).1
+  | _ => none
+
+def trace : Q → List Op → List (Option Item)
+  | _, [] => []
+  | q, op :: ops => out q op :: trace (step q op) ops
+
+/-- reference: one multiset of all queued items (`n` partitions exist) -/
+def specStep (n : Nat) (ms : List Item) : Op → Option Item → List Item
+  | .push x, _ => if x.part < n then x :: ms else ms
+  | .delete x, _ => if x.part < n then ms.erase x else ms
+  | .pop, some x => ms.erase x
+  | .pop, none => ms
+
+/-- the reference accepts the outputs: every `Pop` output is a minimum-priority item of the reference contents (which
+then lose exactly it) and `Pop` fails only on empty contents -/
+def Accepts (n : Nat) : List Item → List Op → List (Option Item) → Prop
+  | _, [], [] => True
+  | ms, .pop :: ops, none :: outs => ms = [] ∧ Accepts n ms ops outs
+  | ms, .pop :: ops, some x :: outs => x ∈ ms ∧ (∀ y ∈ ms, x.prio ≤ y.prio) ∧ Accepts n (ms.erase x) ops outs
+  | ms, op :: ops, none :: outs => Accepts n (specStep n ms op none) ops outs
+  | _, _, _ => False
+
+theorem accepts_perm (n : Nat) (ms ms' : List Item) (hp : ms.Perm ms') (ops : List Op) (outs : List (Option Item))
+    (h : Accepts n ms ops outs) : Accepts n ms' ops outs := by
+  induction ops generalizing ms ms' outs with
+  | nil => cases outs <;> simp [Accepts] at h ⊢
+  | cons op ops ih =>
+    cases outs with
+    | nil => cases op <;> simp [Accepts] at h
+    | cons o outs =>
+      cases op with
+      | pop =>
+        cases o with
+        | none =>
+          simp only [Accepts] at h ⊢
+          exact ⟨by rw [h.1] at hp; exact hp.symm.eq_nil, ih _ _ hp _ h.2⟩
+        | some x =>
+          simp only [Accepts] at h ⊢
+          exact ⟨hp.subset h.1, fun y hy => h.2.1 y (hp.symm.subset hy), ih _ _ (hp.erase x) _ h.2.2⟩
+      | push x =>
+        cases o with
+        | none =>
+          simp only [Accepts, specStep] at h ⊢
+          by_cases hx : x.part < n
+          · rw [if_pos hx] at h ⊢; exact ih _ _ ((List.perm_cons _).mpr hp) _ h
+          · rw [if_neg hx] at h ⊢; exact ih _ _ hp _ h
+        | some y => simp [Accepts] at h
+      | delete x =>
+        cases o with
+        | none =>
+          simp only [Accepts, specStep] at h ⊢
+          by_cases hx : x.part < n
+          · rw [if_pos hx] at h ⊢; exact ih _ _ (hp.erase x) _ h
+          · rw [if_neg hx] at h ⊢; exact ih _ _ hp _ h
+        | some y => simp [Accepts] at h
+
+theorem size_step (q : Q) (o : Op) : (step q o).parts.size = q.parts.size := by
+  cases o with
+  | push x =>
+    show (if x.part < q.parts.size then push q x else q).parts.size = _
+    split
+    · simp [push]
+    · rfl
+  | delete x =>
+    show (if x.part < q.parts.size then delete q x else q).parts.size = _
+    split
+    · simp [delete]
+    · rfl
+  | pop =>
+    show (pop q).2.parts.size = _
+    unfold pop
+    cases Heap.peek q.heap with
+    | none => rfl
+    | some p =>
+      simp only []
+      cases q.parts.getD p [] with
+      | nil => rfl
+      | cons x rest => simp
+
+/-- one step moves the contents as the multiset reference does; `Pop` returns a minimum, and fails only when empty -/
+theorem step_refines (q : Q) (hinv : PInv q) (hsorted : PSorted q) (hpart : PPart q) (op : Op) :
+    (step q op).parts.toList.flatten.Perm (specStep q.parts.size q.parts.toList.flatten op (out q op)) ∧
+    (op = .pop → match out q op with
+      | none => q.parts.toList.flatten = []
+      | some x => x ∈ q.parts.toList.flatten ∧ ∀ y ∈ q.parts.toList.flatten, x.prio ≤ y.prio) := by
+  cases op with
+  | push x =>
+    refine ⟨?_, fun e => by cases e⟩
+    show (if x.part < q.parts.size then push q x else q).parts.toList.flatten.Perm _
+    simp only [specStep]
+    by_cases hx : x.part < q.parts.size
+    · rw [if_pos hx, if_pos hx]
+      show (q.parts.setIfInBounds x.part (insertSorted x (q.parts.getD x.part []))).toList.flatten.Perm _
+      rw [Array.toList_setIfInBounds]
+      apply flatten_set_add _ _ x _ (by simpa using hx)
+      rw [← getD_toList]
+      -- insertSorted adds exactly x
+      have : ∀ l : List Item, (insertSorted x l).Perm (x :: l) := by
+        intro l
+        induction l with
+        | nil => simp [insertSorted]
+        | cons y ys ih =>
+          unfold insertSorted
+          split
+          · exact List.Perm.refl _
+          · exact ((List.perm_cons y).mpr ih).trans (List.Perm.swap x y ys)
+      exact this _
+    · rw [if_neg hx, if_neg hx]
+  | delete x =>
+    refine ⟨?_, fun e => by cases e⟩
+    show (if x.part < q.parts.size then delete q x else q).parts.toList.flatten.Perm _
+    simp only [specStep]
+    by_cases hx : x.part < q.parts.size
+    · rw [if_pos hx, if_pos hx]
+      show (q.parts.setIfInBounds x.part ((q.parts.getD x.part []).erase x)).toList.flatten.Perm _
+      rw [Array.toList_setIfInBounds]
+      by_cases hm : x ∈ q.parts.getD x.part []
+      · have h1 := flatten_set_remove q.parts.toList x.part x ((q.parts.getD x.part []).erase x)
+          (by rw [← getD_toList]; exact List.perm_cons_erase hm)
+        have hxm : x ∈ q.parts.toList.flatten := h1.symm.subset List.mem_cons_self
+        exact ((List.perm_cons x).mp ((List.perm_cons_erase hxm).symm.trans h1)).symm
+      · rw [List.erase_of_not_mem hm]
+        have hnm : x ∉ q.parts.toList.flatten := by
+          intro hh
+          obtain ⟨p, hp⟩ := (mem_flatten_iff q.parts x).mp hh
+          have := hpart p x hp
+          rw [← this] at hp; exact hm hp
+        rw [List.erase_of_not_mem hnm]
+        have : q.parts.toList.set x.part (q.parts.getD x.part []) = q.parts.toList := by
+          rw [getD_toList, List.getD_eq_getElem?_getD, List.getElem?_eq_getElem (by simpa using hx)]
+          simp only [Option.getD_some]
+          exact List.set_getElem_self _
+        rw [this]
+    · rw [if_neg hx, if_neg hx]
+  | pop =>
+    have hps := pop_spec q
+    show (pop q).2.parts.toList.flatten.Perm (specStep q.parts.size q.parts.toList.flatten .pop (pop q).1) ∧
+      (Op.pop = Op.pop → match (pop q).1 with
+        | none => q.parts.toList.flatten = []
+        | some x => x ∈ q.parts.toList.flatten ∧ ∀ y ∈ q.parts.toList.flatten, x.prio ≤ y.prio)
+    rw [hps.1]
+    cases hpk : peek q with
+    | none =>
+      have hall : ∀ p, q.parts.getD p [] = [] := by
+        intro p
+        by_cases hp : p < q.parts.size
+        · have := peek_none q hinv hpk p hp
+          unfold headOf at this
+          cases hl : q.parts.getD p [] with
+          | nil => rfl
+          | cons a as => rw [hl] at this; cases this
+        · rw [Array.getD_eq_getD_getElem?, Array.getElem?_eq_none (by omega)]; rfl
+      have hnil : q.parts.toList.flatten = [] := by
+        apply List.eq_nil_iff_forall_not_mem.mpr
+        intro y hy
+        obtain ⟨p, hp⟩ := (mem_flatten_iff q.parts y).mp hy
+        rw [hall p] at hp; cases hp
+      refine ⟨?_, fun _ => hnil⟩
+      simp only [specStep]
+      -- nothing was popped: the state is unchanged
+      have : (pop q).2 = q := by
+        unfold pop
+        unfold peek at hpk
+        cases hh : Heap.peek q.heap with
+        | none => rfl
+        | some p =>
+          simp only []
+          rw [hall p]
+      rw [this]
+    | some x =>
+      obtain ⟨p, hhead, hparts⟩ := hps.2 x hpk
+      have hold : (q.parts.getD p []).Perm (x :: (q.parts.getD p []).tail) := by
+        cases hl : q.parts.getD p [] with
+        | nil => rw [hl] at hhead; cases hhead
+        | cons a as => rw [hl] at hhead; simp only [List.head?_cons, Option.some.injEq] at hhead; rw [hhead]; simp
+      have h1 := flatten_set_remove q.parts.toList p x (q.parts.getD p []).tail (by rw [← getD_toList]; exact hold)
+      have hxm : x ∈ q.parts.toList.flatten := h1.symm.subset List.mem_cons_self
+      refine ⟨?_, fun _ => ⟨hxm, peek_le_all q hinv hsorted x hpk⟩⟩
+      simp only [specStep]
+      rw [hparts, Array.toList_setIfInBounds]
+      exact ((List.perm_cons x).mp ((List.perm_cons_erase hxm).symm.trans h1)).symm
+
+theorem trace_accepted (q : Q) (hinv : PInv q) (hsorted : PSorted q) (hpart : PPart q) (ops : List Op) :
+    Accepts q.parts.size q.parts.toList.flatten ops (trace q ops) := by
+  induction ops generalizing q with
+  | nil => simp [trace, Accepts]
+  | cons op ops ih =>
+    obtain ⟨b, c⟩ := step_refines q hinv hsorted hpart op
+    have hrec := ih (step q op) (step_inv q op hinv) (step_sorted q op hsorted) (step_part q op hpart)
+    rw [size_step] at hrec
+    have := accepts_perm _ _ _ b ops _ hrec
+    cases op with
+    | push x => simp only [trace, out, Accepts]; exact this
+    | delete x => simp only [trace, out, Accepts]; exact this
+    | pop =>
+      have c' := c rfl
+      simp only [trace]
+      cases ho : out q .pop with
+      | none => rw [ho] at c' this; simp only [Accepts]; exact ⟨c', this⟩
+      | some x => rw [ho] at c' this; simp only [Accepts]; exact ⟨c'.1, c'.2, this⟩
+
 end Rxn.PPQ
